@@ -183,6 +183,35 @@ def cluster_churn(rng, sid, rounds):
     return {"id": sid, "ops": ops, "_kind": "churn", "_vlen": vlen, "_B": B, "_d": d}
 
 
+CL_IDLE_CFG = dict(CL_CFG, table_idle_ms=300)
+
+
+def cluster_quiesce(rng, sid):
+    """a burst of overwrites of values larger than half a table (one entry per table: a table is entirely live or entirely dead), then
+    the workload stops: after the compaction passes and the idle time of recycled tables the members must have given the peak back"""
+    import dmaplib
+    d = "c20q%d" % sid
+    nkeys = rng.choice([4, 8])
+    vlen = rng.choice([280, 330, 400])
+    keys = [dmaplib.hx("k%02d" % j) for j in range(nkeys)]
+    rounds = rng.choice([12, 25])
+    ops = []
+    for r in range(rounds):
+        for k in keys:
+            if r < rounds - 1 and rng.random() < 0.1:
+                ops.append({"op": "del", "c": rng.choice(["emb@owner", "cc"]), "d": d, "k": k})
+            else:
+                ops.append({"op": "put", "c": rng.choice(["emb@owner", "cc", "emb@other"]), "d": d, "k": k, "v": dmaplib.hx(chr(97 + r % 26) * vlen)})
+        if rng.random() < 0.2:
+            ops.append({"op": "compactworker", "m": rng.randrange(CL_CFG["members"])})
+    for rep in range(3):
+        for m in range(CL_CFG["members"]):
+            ops.append({"op": "compactworker", "m": m})
+        ops.append({"op": "sleep", "ms": 700})
+    ops.append({"op": "stats", "d": d})
+    return {"id": sid, "ops": ops, "_kind": "quiesce", "_vlen": vlen, "_d": d}
+
+
 def cluster_race(rng, sid):
     """the compaction pass of every member runs (many tables to drain, so many calls per fragment) while the DMap is destroyed:
     the pass must come to an end"""
@@ -216,6 +245,16 @@ def judge_cluster(sc, obs):
                 if st["alloc"] > bound:
                     return (i, "member %d holds %d bytes in %d tables for %d live bytes of its %s copies after its compaction pass (bound %d)" % (
                         st["m"], st["alloc"], st["tables"], st["inuse"], "primary" if st["kind"] == "p" else "backup", bound))
+        if op["op"] == "stats" and sc["_kind"] == "quiesce":
+            esz = sc["_vlen"] + 32         # one entry: 29 bytes of metadata, the 3-byte key, the value; more than half a table
+            for st in ob.get("stats") or []:
+                if not st["frags"]:
+                    continue
+                bound = T * (st["inuse"] // esz + 2 * st["frags"])
+                if st["alloc"] > bound:
+                    return (i, "member %d still holds %d bytes in %d tables for %d live bytes (%d entries, one per table) of its %s copies after the workload "
+                               "stopped, its compaction passes ran and the idle time of recycled tables (300 ms) passed three times (bound %d)" % (
+                                   st["m"], st["alloc"], st["tables"], st["inuse"], st["inuse"] // esz, "primary" if st["kind"] == "p" else "backup", bound))
     if len(obs) < len(sc["ops"]):
         return (len(obs), "scenario aborted")
     return None
@@ -231,7 +270,10 @@ def cluster_part(res):
     for i in range(3 if res.tier == "quick" else 12):
         scs.append(cluster_race(vlib.rng_for(res.seed, PID, "clrace", i), sid))
         sid += 1
-    groups = [(CL_CFG, [sc]) for sc in scs]
+    for i in range(3 if res.tier == "quick" else 12):
+        scs.append(cluster_quiesce(vlib.rng_for(res.seed, PID, "clquiesce", i), sid))
+        sid += 1
+    groups = [(CL_IDLE_CFG if sc["_kind"] == "quiesce" else CL_CFG, [sc]) for sc in scs]
     results = dmaplib.run_groups(groups)
     bad = 0
     for sc in scs:
@@ -240,7 +282,7 @@ def cluster_part(res):
         if v:
             bad += 1
             if bad <= 3:
-                res.violation({"kind": "impl-violates-property", "part": "cluster", "cluster": CL_CFG,
+                res.violation({"kind": "impl-violates-property", "part": "cluster", "cluster": CL_IDLE_CFG if sc["_kind"] == "quiesce" else CL_CFG,
                                "scenario": {"ops": sc["ops"][:v[0] + 1], "_kind": sc["_kind"], "_vlen": sc.get("_vlen"), "_B": sc.get("_B")},
                                "failed_step": v[0], "impl_trace": obs[max(0, v[0] - 3):v[0] + 1],
                                "predicate": {"name": "bounded allocation of primary and backup copies after the member's compaction pass; the pass ends", "verdict": v[1]},
@@ -248,7 +290,8 @@ def cluster_part(res):
     res.coverage["cluster_level"] = {"scenarios": len(scs), "failures": bad,
                                      "rule": "2 members, 2 copies, 512-byte tables: overwrite/delete churn on 6-10 keys with the member's REAL compaction pass "
                                              "(triggerCompaction) after every 2 tables written, Stats of primary and backup copies after each pass against "
-                                             "the closed-form bound; and the pass racing DM.DESTROY (it has to return)"}
+                                             "the closed-form bound; the pass racing DM.DESTROY (it has to return); and a burst of one-entry-per-table overwrites followed by "
+                                             "silence (maxIdleTableTimeout 300 ms): after the passes every recycled table has been released"}
     return len(scs)
 
 
